@@ -2,6 +2,7 @@ package main
 
 import (
 	"bytes"
+	"errors"
 	"fmt"
 	"os"
 	"reflect"
@@ -274,7 +275,14 @@ type C11Plan struct {
 	// while the first batch is still held (a bank that is never closed must
 	// never be recycled, whatever the collector does in between).
 	DropBanks bool `json:"drop_banks,omitempty"`
+	// With DropBanks: both passes decode into ONE struct the caller owns
+	// (pointer `out`), and the first pass is stopped by a callback error at
+	// record AbortAt (-1: runs to the end).
+	OutPtr  bool `json:"out_ptr,omitempty"`
+	AbortAt int  `json:"abort_at,omitempty"`
 }
+
+var errC11Abort = errors.New("c11: callback gives up")
 
 type c11Prop struct{}
 
@@ -346,6 +354,11 @@ func (c11Prop) Generate(seed uint64, idx int, tier string) *Plan {
 	}
 	if pl.Dir == "decode" {
 		pl.DropBanks = r.P(1, 4)
+		pl.AbortAt = -1
+		if pl.DropBanks && r.P(1, 2) {
+			pl.OutPtr = true
+			pl.AbortAt = r.Range(0, 3)
+		}
 	}
 	return &Plan{Prop: "C11", Seed: seed, Idx: idx, Tier: tier, C11: pl}
 }
@@ -439,6 +452,8 @@ func (c11Prop) Execute(p *Plan, run *Run) any {
 		schedB.at[1+int(raw%uint32(total))] = true
 	}
 	var held []reflect.Value
+	var heldIdx []int // index into A of each held record
+	abortedAfter := -1
 	var banks []*avro.ResourceBank
 	closedUpTo := 0
 	violated := false
@@ -452,7 +467,7 @@ func (c11Prop) Execute(p *Plan, run *Run) any {
 			var where string
 			pan := func() (pan any) {
 				defer func() { pan = recover() }()
-				ok, where = EqualNorm(A[i%len(A)], held[i])
+				ok, where = EqualNorm(A[heldIdx[i]], held[i])
 				return nil
 			}()
 			if pan != nil {
@@ -482,16 +497,22 @@ func (c11Prop) Execute(p *Plan, run *Run) any {
 		if pl.DropBanks {
 			passes = 2
 		}
+		outB := outFor(target, pl.OutPtr && pl.DropBanks)
 		for pass := 0; pass < passes && errB == nil; pass++ {
 			if pass > 0 {
 				rd = NewDiskReader(bf.Bytes, pl.Chunks)
 				rd.Yield = gcPoint
 			}
 			n := 0
-			errB = avro.ReadFile(rd, reflect.New(target).Elem().Interface(), func(val unsafe.Pointer, rb *avro.ResourceBank) error {
+			abortAt := -1
+			if pass == 0 && pl.DropBanks && pl.AbortAt >= 0 && pl.AbortAt < len(A) {
+				abortAt = pl.AbortAt
+			}
+			errB = avro.ReadFile(rd, outB, func(val unsafe.Pointer, rb *avro.ResourceBank) error {
 				rec := reflect.New(target).Elem()
 				rec.Set(reflect.NewAt(target, val).Elem())
 				held = append(held, rec)
+				heldIdx = append(heldIdx, n)
 				if !pl.DropBanks {
 					banks = append(banks, rb)
 				}
@@ -500,8 +521,15 @@ func (c11Prop) Execute(p *Plan, run *Run) any {
 					return fmt.Errorf("more records than run A")
 				}
 				gcPoint("callback")
+				if n-1 == abortAt {
+					return errC11Abort
+				}
 				return nil
 			})
+			if errB == errC11Abort {
+				errB = nil
+				abortedAfter = n
+			}
 			gcPoint("after-readfile")
 		}
 		return nil, ""
@@ -526,6 +554,9 @@ func (c11Prop) Execute(p *Plan, run *Run) any {
 	wantHeld := len(A)
 	if pl.DropBanks {
 		wantHeld = 2 * len(A)
+		if abortedAfter >= 0 {
+			wantHeld = abortedAfter + len(A)
+		}
 	}
 	if errB != nil || len(held) != wantHeld {
 		run.Violation("c11/result-differs-under-gc", "readfile", fmt.Sprintf("run B (with collections) delivered %d records, err=%v; run A delivered %d, err=nil", len(held), errB, len(A)), nil)
